@@ -146,7 +146,7 @@ def _judge_all(rep, cases, label, devs, want_infrag):
         else:
             bad.append((c, o, r))
     for k, (c, o, r) in enumerate(bad):
-        if k < 3:
+        if k < 2:
             c, o, r = _shrink(c, o, r, devs)
         rep.violation(dict(case=c, shown=show(c), observed=show_obs(o), expected=show_exp(r["exp"])),
                       f"textx {' '.join(o['argv'])!r} (declared={show(c)['declared']}): observed {show_obs(o)} "
@@ -156,7 +156,7 @@ def _judge_all(rep, cases, label, devs, want_infrag):
 
 def _shrink(case, obs, res, devs):
     """Drop argv tokens / declared parameters while TLC still rejects the observation."""
-    for _ in range(12):
+    for _ in range(8):
         cands = []
         for i in range(len(case["argv"])):
             cands.append(dict(case, argv=case["argv"][:i] + case["argv"][i + 1:]))
